@@ -107,7 +107,13 @@ def saturated(ctx, base):
             alpha = FB(rng.choice([1.0, 1.0, 1.0, 0.5, rng.random()]))
             x, y = float(rng.randrange(-2, W)), float(rng.randrange(-1, H))
             c = rng.random()
-            if c < 0.4:
+            if c < 0.25:
+                # a solid colour through the integer route, with a global alpha strictly between 0 and 1
+                col = rng.choice([0xffff0000, 0xff0000ff, 0xffffffff, 0x80800000, gen.premul_pixel(rng)])
+                ops.append("fillrect %d %d %d %d solid %s %d %d 1" % (
+                    FB(x), FB(y), FB(float(rng.randrange(1, W + 2))), FB(float(rng.randrange(1, H + 2))), gen.hexpx(col), mode,
+                    FB(rng.choice([0.5, 0.25, 0.75, 0.1, 0.9, rng.random()]))))
+            elif c < 0.4:
                 ops.append("drawimage %d %d %s %d %d 1" % (FB(x), FB(y), img, mode, alpha))
             elif c < 0.8:
                 ops.append("fillrect %d %d %d %d image %s %s %s %s %d %d 1" % (
